@@ -220,7 +220,10 @@ class EventHandler:
         """
         self._prepare_emit()
         results = []
-        for _, callback, _, extra_kwargs in self.listeners:
+        for listener in list(self.listeners):  # copy: a callback might connect/disconnect listeners
+            if listener not in self.listeners:
+                continue  # got disconnected by one of the previous callbacks
+            _, callback, _, extra_kwargs = listener
             res = callback(*args, **kwargs, **extra_kwargs)
             results.append(res)
         return results
@@ -228,7 +231,10 @@ class EventHandler:
     def emit_until_result(self, *args, **kwargs):
         """Call the listeners `callback` until one returns not `None`."""
         self._prepare_emit()
-        for _, callback, _, extra_kwargs in self.listeners:
+        for listener in list(self.listeners):  # copy: a callback might connect/disconnect listeners
+            if listener not in self.listeners:
+                continue  # got disconnected by one of the previous callbacks
+            _, callback, _, extra_kwargs = listener
             res = callback(*args, **kwargs, **extra_kwargs)
             if res is not None:
                 return res
